@@ -11,7 +11,13 @@ exact type) and evaluated (the value again):
  int     every n < 10**5, and 10**k, 10**k-1, repdigits d*(10**k-1)/9 for every k up to the bound;
  decimal every a.f with a < 100 (and boundary integer parts) and every fraction of <= 3 digits, plus long forms,
          against the correctly rounded rational;
- word    every word <= 3 over {a Z _ 1 e-acute} and a list of look-alikes of true/false/null and operator words.
+ word    every word <= 3 over {a Z _ 1 e-acute} and a list of look-alikes of true/false/null and operator words;
+ options string literals holding every surrogate code point, BMP and astral samples and all strings <= 2 over the
+         spell alphabet, numbers and constants, on an engine with a (generous) memory quota and iterator limit:
+         engine options must not change what a literal denotes;
+ host    host functions whose parameter is declared as a literal (NumericConstant, StringConstant, BooleanConstant,
+         Constant, nullable and not) or left untyped, called positionally and by keyword with literals of every
+         class: the value the host receives is the value the literal denotes (type included).
 Ill-formed escapes are outside the domain (C03 owns them): counted, not judged.
 """
 import itertools
@@ -26,6 +32,8 @@ from models import literals as M
 import yaql
 from yaql.language import exceptions as yexc
 from yaql.language import expressions as X
+from yaql.language import specs as yspecs
+from yaql.language import yaqltypes
 
 ID = 'C16'
 TITLE = 'literals denote the values they spell'
@@ -41,7 +49,9 @@ ASSUMPTIONS = ['the per-code-point sweeps over U+0800..U+D7FF compare Constant.v
 BOUNDS = {
     'quick': 'spell: strings <=4 over 15 symbols x 3 styles, BMP alone+embedded x 3 styles; escape: \\u all BMP, \\x \\octal all, '
              '\\U and \\N for cp < 0x3000 and plane boundaries (full style x context product below 0x300, 4 contexts above); body <=4 over 18 symbols x 3 styles; int: n<10**5, k<=4000 step 7 '
-             'plus all k<=120; decimal: 103 integer parts x 1110 fractions + long forms; words <=3 over 5 symbols',
+             'plus all k<=120; decimal: 103 integer parts x 1110 fractions + long forms; words <=3 over 5 symbols; '
+             'options: all 2048 surrogates x (3 raw styles + \\u) alone and embedded, 270 BMP + 12 astral samples, strings <=2 over 15 symbols, '
+             '30 numbers/constants on an engine with memoryQuota=10**9, limitIterators=10**6; host: 10 declared parameter types x 2 call forms x 38 literals',
     'thorough': 'as quick with \\U, \\N for every BMP code point, int k<=min(4000, digit limit) every k, bodies <=5',
 }
 
@@ -65,16 +75,21 @@ _state = {}
 def setup():
     if not _state:
         _state['eng'] = yaql.YaqlFactory().create()
+        _state['eng-limits'] = yaql.YaqlFactory().create(options=LIMITS)
         _state['root'] = yaql.create_context()
     return _state
 
 
-def observe(text, evaluate=True):
+# generous limits: they restrict resources, never the meaning of a literal
+LIMITS = {'yaql.memoryQuota': 10 ** 9, 'yaql.limitIterators': 10 ** 6}
+
+
+def observe(text, evaluate=True, engine='eng'):
     """('const'|'kw', value, evaluated) | ('tree', node type) | ('rejected', class) | ('raised', class).
     With evaluate=False the third item repeats Constant.value (parse-only case)."""
     s = setup()
     try:
-        st = s['eng'](text)
+        st = s[engine](text)
     except yexc.YaqlParsingException as e:
         return ('rejected', type(e).__name__)
     except Exception as e:
@@ -103,11 +118,11 @@ def same(x, y):
     return x == y
 
 
-def judge(res, family, text, expect, case, keyinfo, evaluate=True):
+def judge(res, family, text, expect, case, keyinfo, evaluate=True, engine='eng'):
     """expect: ('const'|'kw', value) | ('rejected',) | None (out of domain)."""
     core.CURRENT_CASE[0] = case
     res.case((family, text))
-    obs = observe(text, evaluate)
+    obs = observe(text, evaluate, engine)
     res.evaluations += 1
     res.extra['evaluated_as_well_as_parsed'] = res.extra.get('evaluated_as_well_as_parsed', 0) + (1 if evaluate else 0)
     res.transitions += 1
@@ -412,6 +427,160 @@ def job_words():
 
 
 # --------------------------------------------------------------------------
+# options: the same literals on an engine with resource limits
+# --------------------------------------------------------------------------
+OPTION_SAMPLES = sorted(set(range(0, 0x10000, 0x111)) | {0x7F, 0x80, 0xFF, 0x100, 0x7FF, 0x800, 0xD7FF, 0xE000, 0xFFFD, 0xFFFE, 0xFFFF})
+OPTION_SCALARS = [('0', 0), ('1', 1), ('7', 7), ('255', 255), ('1' + '0' * 40, 10 ** 40), ('9' * 400, 10 ** 400 - 1),
+                  ('0.0', 0.0), ('0.5', 0.5), ('1.0', 1.0), ('2.25', 2.25), ('0.1', 0.1), ('123456789.125', 123456789.125),
+                  ('true', True), ('false', False), ('null', None)]
+
+
+def option_case(res, text, expect, case, keyinfo):
+    judge(res, 'options', text, expect, dict(case, family='options', text=text), keyinfo, True, 'eng-limits')
+
+
+def job_options():
+    res = Result()
+    for cp in range(0xD800, 0xE000):
+        c = chr(cp)
+        for value in (c, 'a' + c + 'b'):
+            for q in M.STYLES:
+                option_case(res, M.quote(value, q), ('const', value), {'style': q}, 'raw style=' + q)
+        esc = '\\u%04x' % cp
+        option_case(res, "'" + esc + "'", ('const', c), {'style': "'"}, "form=\\u style='")
+        option_case(res, '"x' + esc + esc + '"', ('const', 'x' + c + c), {'style': '"'}, 'form=\\u style="')
+    for cp in OPTION_SAMPLES + ASTRAL:
+        c = chr(cp)
+        for value in (c, 'a' + c + 'b'):
+            for q in M.STYLES:
+                if q == '`' and not M.verbatim_spellable(value):
+                    continue
+                option_case(res, M.quote(value, q), ('const', value), {'style': q}, 'raw style=' + q)
+    for n in (0, 1, 2):
+        for tup in itertools.product(SPELL_ALPHA, repeat=n):
+            value = ''.join(tup)
+            for q in M.STYLES:
+                if q == '`' and not M.verbatim_spellable(value):
+                    continue
+                option_case(res, M.quote(value, q), ('const', value), {'style': q}, 'raw style=' + q)
+    for text, value in OPTION_SCALARS:
+        option_case(res, text, ('const', value), {}, 'scalar')
+    for w in ('abc', '_x', 'True'):
+        option_case(res, w, ('kw', w), {}, 'word')
+    res.sample({'family': 'options', 'options': LIMITS}, limit=1)
+    return res
+
+
+# --------------------------------------------------------------------------
+# host: literal-typed parameters of host functions
+# --------------------------------------------------------------------------
+# name -> (declared type | None, accepted literal classes, nullable)
+HOST_PARAMS = [
+    ('num', lambda: yaqltypes.NumericConstant(), ('int', 'decimal'), False),
+    ('text', lambda: yaqltypes.StringConstant(), ('string', 'keyword'), False),
+    ('flag', lambda: yaqltypes.BooleanConstant(), ('bool',), False),
+    ('lit', lambda: yaqltypes.Constant(False), ('int', 'decimal', 'string', 'keyword', 'bool'), False),
+    ('nnum', lambda: yaqltypes.NumericConstant(True), ('int', 'decimal'), True),
+    ('ntext', lambda: yaqltypes.StringConstant(True), ('string', 'keyword'), True),
+    ('nflag', lambda: yaqltypes.BooleanConstant(True), ('bool',), True),
+    ('nlit', lambda: yaqltypes.Constant(True), ('int', 'decimal', 'string', 'keyword', 'bool'), True),
+    ('word', lambda: yaqltypes.Keyword(), ('keyword',), False),
+    ('plain', None, ('int', 'decimal', 'string', 'keyword', 'bool'), True),
+]
+# (text, class, denoted value); leading-zero numerals are outside the reference, the rest is what the other families establish
+HOST_LITERALS = (
+    [(t, 'int', v) for t, v in (('0', 0), ('1', 1), ('7', 7), ('10', 10), ('255', 255), ('1' + '0' * 40, 10 ** 40))]
+    + [(t, 'decimal', v) for t, v in (('0.0', 0.0), ('0.000', 0.0), ('0.5', 0.5), ('1.0', 1.0), ('1.25', 1.25), ('10.0', 10.0))]
+    + [(M.quote(v, q), 'string', v) for v in ('', 'a', 'a b', '0', 'false', ' ', 'null') for q in M.STYLES]
+    + [("'\\x00'", 'string', '\x00'), ('`\\d`', 'string', '\\d')]
+    + [(w, 'keyword', w) for w in ('abc', '_', 'False')]
+    + [('true', 'bool', True), ('false', 'bool', False), ('null', 'null', None)]
+)
+HOST_UNCOVERED = [('00', 'int'), ('007', 'int'), ('00.0', 'decimal')]      # judged differentially against the bare literal
+
+
+def host_context():
+    s = setup()
+    if 'host' not in s:
+        ctx = s['root'].create_child_context()
+        received = []
+        for name, make, _, _ in HOST_PARAMS:
+            def payload(value, _name=name):
+                received.append((_name, value))
+                return value
+            payload.__name__ = name
+            if make is not None:
+                payload = yspecs.parameter('value', make())(payload)
+            ctx.register_function(payload, name=name)
+        s['host'] = (ctx, received)
+    return s['host']
+
+
+def host_call(text):
+    """('v', result, received values) | ('e', exception class)."""
+    s = setup()
+    ctx, received = host_context()
+    del received[:]
+    try:
+        result = s['eng'](text).evaluate(context=ctx.create_child_context())
+    except (yexc.NoMatchingFunctionException, yexc.NoMatchingMethodException):
+        return ('e', 'nomatch')
+    except Exception as e:
+        return ('e', type(e).__name__)
+    return ('v', result, [v for _, v in received])
+
+
+def host_expect(name, cls, value):
+    for pname, _, accepts, nullable in HOST_PARAMS:
+        if pname == name:
+            if cls == 'null':
+                # which literal-typed declarations take the null literal is a question about parameter types, not
+                # about what `null` denotes (today: non-nullable Constant takes it, nullable Numeric/String/Boolean
+                # constants refuse it): judged only where the declaration is generic and nullable
+                return ('v', None) if pname in ('nlit', 'plain') else None
+            return ('v', value) if cls in accepts else ('e', 'nomatch')
+    raise KeyError(name)
+
+
+def host_judge(res, name, form, lit, cls, expect):
+    text = '%s(%s)' % (name, lit) if form == 'positional' else '%s(value => %s)' % (name, lit)
+    case = {'family': 'host', 'fn': name, 'form': form, 'literal': lit, 'class': cls}
+    core.CURRENT_CASE[0] = case
+    res.case(('host', text))
+    obs = host_call(text)
+    res.evaluations += 1
+    res.transitions += 1
+    if expect is None:
+        res.out_of_domain += 1
+        res.outcomes['host: out of domain -> %s' % (obs[0],)] += 1
+        return
+    res.nontrivial += 1
+    if expect[0] == 'e':
+        ok = obs == expect
+    else:
+        ok = obs[0] == 'v' and same(obs[1], expect[1]) and len(obs[2]) == 1 and same(obs[2][0], expect[1])
+    res.outcomes['host: %s' % ('value' if obs[0] == 'v' else obs[1])] += 1
+    if not ok:
+        how = 'raised ' + obs[1] if obs[0] == 'e' else ('accepted' if expect[0] == 'e' else 'wrong value')
+        res.fail('host param=%s literal=%s: %s' % (name, cls, how), case,
+                 'text %r observed %.200r expected %.200r' % (text, obs, expect), size=len(text))
+
+
+def job_host():
+    res = Result()
+    for name, _, _, _ in HOST_PARAMS:
+        for form in ('positional', 'keyword'):
+            for lit, cls, value in HOST_LITERALS:
+                host_judge(res, name, form, lit, cls, host_expect(name, cls, value))
+            for lit, cls in HOST_UNCOVERED:
+                bare = observe(lit)
+                expect = host_expect(name, cls, bare[1]) if bare[0] == 'const' else None
+                host_judge(res, name, form, lit, cls, expect)
+    res.sample({'family': 'host', 'functions': [n for n, _, _, _ in HOST_PARAMS], 'texts': ['num(0)', "text(value => '')"]}, limit=1)
+    return res
+
+
+# --------------------------------------------------------------------------
 def jobs(tier, seed):
     out = []
     for i, sl in enumerate(chunks(SPELL_ALPHA, 8)):
@@ -437,6 +606,8 @@ def jobs(tier, seed):
         out.append(('decimal-%d' % i, 'job_decimals', (sl,)))
     out.append(('words', 'job_words', ()))
     out.append(('evalpath', 'job_evalpath', ()))
+    out.append(('options', 'job_options', ()))
+    out.append(('host', 'job_host', ()))
     return out
 
 
@@ -445,6 +616,24 @@ def replay(case):
     if fam == 'evalpath':
         r = job_evalpath()
         return {'observed': [f.detail for f in r.failures.values()], 'expected': 'every literal denotes its own text', 'ok': not r.failures}
+    if fam == 'options':
+        obs = observe(case['text'], True, 'eng-limits')
+        plain = observe(case['text'])
+        return {'text': case['text'], 'observed': '%.300r' % (obs,), 'expected': 'as without options: %.300r' % (plain,),
+                'ok': obs[0] == plain[0] and all(same(a, b) for a, b in zip(obs[1:], plain[1:]))}
+    if fam == 'host':
+        name, lit, cls = case['fn'], case['literal'], case['class']
+        text = '%s(%s)' % (name, lit) if case['form'] == 'positional' else '%s(value => %s)' % (name, lit)
+        bare = observe(lit)
+        expect = host_expect(name, cls, bare[1] if bare[0] in ('const', 'kw') else None) if bare[0] in ('const', 'kw') else None
+        obs = host_call(text)
+        if expect is None:
+            ok = True
+        elif expect[0] == 'e':
+            ok = obs == expect
+        else:
+            ok = obs[0] == 'v' and same(obs[1], expect[1]) and len(obs[2]) == 1 and same(obs[2][0], expect[1])
+        return {'text': text, 'observed': '%.300r' % (obs,), 'expected': '%.300r' % (expect,), 'ok': ok}
     if fam == 'spell':
         text = M.quote(case['value'], case['style'])
         expect = ('const', case['value'])
